@@ -252,6 +252,7 @@ class Scheduler(object):
                 for t in self.threads
                 if not t.done
                 and not t.enabled
+                and not t.client  # library timers only: cutting a client's own sleep short would starve the workers
                 and t.deadline is not None
                 and t.deadline <= self.now + self.preempt_horizon
             ]
